@@ -173,3 +173,76 @@ Proof.
   destruct (if b then let '(v, u') := arb_u32 u4 in (VSome (VZ v), u') else (VNone, u4)) as [pp u5].
   cbn. do 5 eexists. split; [reflexivity|]. repeat split; assumption.
 Qed.
+
+(* ---- <&[u8]> / <&str> generators and the types built from them *)
+Lemma arb_byte_size_bound : forall u len u1, bytes_ok u = true -> arb_byte_size u = (len, u1) ->
+  0 <= len <= blen u1.
+Proof.
+  intros u len u1 Hb H. unfold arb_byte_size in H. pose proof (blen_nonneg u) as Hn.
+  assert (Hnth : forall j, 0 <= nth j u 0 < 256).
+  { intros j. destruct (Nat.lt_ge_cases j (List.length u)) as [Hj|Hj].
+    - unfold bytes_ok in Hb. rewrite forallb_forall in Hb. specialize (Hb (nth j u 0) (nth_In u 0 Hj)).
+      unfold byte_ok in Hb. lia.
+    - rewrite nth_overflow by lia. lia. }
+  destruct (blen u =? 0) eqn:E0; [injection H as <- <-; lia|].
+  destruct (blen u =? 1) eqn:E1; [injection H as <- <-; cbn; lia|].
+  destruct (blen u <=? 256) eqn:E2.
+  - injection H as <- <-. unfold blen in *. rewrite firstn_length.
+    specialize (Hnth (Z.to_nat (Z.of_nat (List.length u) - 1))).
+    destruct (Z.of_nat (List.length u) - 1 =? 255) eqn:E3.
+    + lia.
+    + pose proof (Z.mod_pos_bound (nth (Z.to_nat (Z.of_nat (List.length u) - 1)) u 0) (Z.of_nat (List.length u) - 1 + 1) ltac:(lia)). lia.
+  - injection H as <- <-. unfold blen in *. rewrite firstn_length.
+    pose proof (Hnth (Z.to_nat (Z.of_nat (List.length u) - 2))) as H0.
+    pose proof (Hnth (Z.to_nat (Z.of_nat (List.length u) - 2 + 1))) as H1.
+    set (m := Z.of_nat (List.length u) - 2) in *.
+    set (v := if 256 <=? m then nth (Z.to_nat m) u 0 * 256 + nth (Z.to_nat (m + 1)) u 0 else nth (Z.to_nat m) u 0).
+    assert (Hv : 0 <= v < 65536) by (unfold v; destruct (256 <=? m); lia).
+    destruct (m =? 65535) eqn:E3.
+    + lia.
+    + pose proof (Z.mod_pos_bound v (m + 1) ltac:(lia)). lia.
+Qed.
+
+Theorem arb_slice_ok : forall u, bytes_ok u = true -> good (fun _ => True) (arb_slice u).
+Proof.
+  intros u Hb. unfold arb_slice. destruct (arb_byte_size u) as [len u1] eqn:E.
+  unfold u_bytes. destruct (blen u1 <? len); exact I.
+Qed.
+
+Theorem arb_strref_ok : forall u, bytes_ok u = true -> good (fun s => utf8_valid s = true) (arb_strref u).
+Proof.
+  intros u Hb. unfold arb_strref. destruct (arb_byte_size u) as [size u1] eqn:E.
+  destruct (arb_byte_size_bound u size u1 Hb E) as [H0 H1].
+  unfold u_peek. destruct (blen u1 <? size) eqn:En; [lia|].
+  set (p := firstn (Z.to_nat size) u1).
+  destruct (utf8_valid p) eqn:Ev.
+  - unfold u_bytes. rewrite En. cbn. exact Ev.
+  - set (k := Utf8.valid_prefix_len p).
+    assert (Hk : (k <= List.length p)%nat) by apply valid_prefix_len_le.
+    assert (Hp : (List.length p <= List.length u1)%nat) by (unfold p; rewrite firstn_length; lia).
+    unfold u_bytes. destruct (blen u1 <? Z.of_nat k) eqn:Ek; [unfold blen in Ek; lia|].
+    cbn [abind]. rewrite Nat2Z.id.
+    assert (Hs : firstn k u1 = firstn k p).
+    { unfold p. rewrite firstn_firstn. f_equal. unfold p in Hk. rewrite firstn_length in Hk. lia. }
+    rewrite Hs. unfold k. rewrite valid_prefix_valid. cbn. apply valid_prefix_valid.
+Qed.
+
+Lemma in_skipn' {A} : forall n (l : list A) x, In x (skipn n l) -> In x l.
+Proof. induction n as [|n IH]; intros [|y l] x H; cbn in *; auto. Qed.
+Lemma in_firstn' {A} : forall n (l : list A) x, In x (firstn n l) -> In x l.
+Proof. induction n as [|n IH]; intros [|y l] x H; cbn in *; try contradiction. destruct H as [H|H]; [left; exact H|right; apply IH; exact H]. Qed.
+
+Theorem arb_descref_ok : forall u, bytes_ok u = true ->
+  good (fun v => exists id kt, v = VRec [("id", VBytes id); ("key_type", VStr kt)] /\ utf8_valid kt = true) (arb_descref u).
+Proof.
+  intros u Hb. unfold arb_descref. unfold arb_slice. destruct (arb_byte_size u) as [len u1] eqn:E.
+  unfold u_bytes. destruct (blen u1 <? len); [exact I|]. cbn [abind].
+  assert (Hb1 : bytes_ok (skipn (Z.to_nat len) u1) = true).
+  { unfold arb_byte_size in E. unfold bytes_ok in *. apply forallb_forall. intros x Hx.
+    rewrite forallb_forall in Hb. apply Hb.
+    assert (Hin : In x u1) by (eapply in_skipn'; exact Hx).
+    repeat match type of E with (if ?c then _ else _) = _ => destruct c end; injection E as _ <-;
+      try exact Hin; try (destruct Hin); eapply in_firstn'; exact Hin. }
+  apply (good_bind (fun s => utf8_valid s = true)); [apply arb_strref_ok; exact Hb1|].
+  intros kt u2 Hk. cbn. eexists; eexists. split; [reflexivity|exact Hk].
+Qed.
